@@ -513,6 +513,10 @@ def r7(ck, F):
             problems.append("Some(..) is not built by Metadata::new")
             continue
         n += 1
+        # only an event that came from the `log` crate is rewritten: a native tracing event keeps its own metadata (None)
+        is_log = [c[1] for c in p.conds if show(c[0]).startswith("is_log(")]
+        if not is_log or is_log[0] == 0:
+            problems.append("normalised metadata is produced on a path where is_log() was %s" % (is_log[0] if is_log else "not asked"))
         args = new[2]
         want = {1: "target", 3: "file", 4: "line", 5: "module_path"}
         others = set(want.values())
